@@ -282,7 +282,11 @@ func TestVerif_C13(t *testing.T) {
 			close(stopDrain)
 			dwg.Wait()
 			for _, rt := range comp.routers {
-				if conns, subs := mocrelay.VerifPeekRouter(rt); conns != 0 || subs != 0 {
+				conns, subs, ok := vk.PeekRouter(rt)
+				if ok {
+					rep.Count("registry_observations", 1)
+				}
+				if ok && (conns != 0 || subs != 0) {
 					rep.Violation("leak/router-registry", fmt.Sprintf("after the session ended the router registry still holds %d connection(s) and %d subscription(s)", conns, subs), wit(nil))
 				}
 			}
@@ -473,6 +477,9 @@ func TestVerif_C13(t *testing.T) {
 		wg.Wait()
 	}
 	rep.Require(rep.Counter("sessions") >= int64(n), "sessions")
+	if rep.Counter("registry_observations") == 0 {
+		rep.Inconclusive("C13: the router registry could not be observed by reflection (structure changed); the registry clause was not judged")
+	}
 	rep.Require(rep.SetSize("compositions") >= 100, "distinct compositions")
 	for _, e := range []string{"cancel, peer draining", "cancel, peer stalled", "inbound close, peer draining"} {
 		rep.Require(rep.Counter("ending:"+e) >= int64(n/6), "ending "+e)
